@@ -165,3 +165,160 @@ def subscripts_in(node_iter):
     for x in node_iter:
         if x['k'] == 'idx':
             yield x
+
+
+# ---------------------------------------------------------------------------------------------------------------------------
+# Bounded loops in any spelling (for / while, increment in the header or at the end of every iterating path)
+
+def _writes_to(e, var_id):
+    """[(kind, amount)] for every write to the variable inside expression e: ('inc', +-n) or ('other', None)"""
+    out = []
+    for x in ir.walk(e):
+        if x['k'] == 'un' and x['op'] in ('++', '--'):
+            t = ir.strip(x['e'])
+            if t['k'] == 'var' and t['id'] == var_id:
+                out.append(('inc', 1 if x['op'] == '++' else -1))
+        elif x['k'] == 'asg':
+            t = ir.strip(x['l'])
+            if t['k'] == 'var' and t['id'] == var_id:
+                c = ir.const_val(x['r'])
+                if x['op'] == '+=' and c is not None:
+                    out.append(('inc', c))
+                elif x['op'] == '-=' and c is not None:
+                    out.append(('inc', -c))
+                else:
+                    # i = i + 1
+                    r = ir.strip(x['r'])
+                    if x['op'] == '=' and r['k'] == 'bin' and r['op'] == '+' and ir.strip(r['l']).get('id') == var_id and ir.const_val(r['r']) is not None:
+                        out.append(('inc', ir.const_val(r['r'])))
+                    else:
+                        out.append(('other', None))
+        elif x['k'] == 'un' and x['op'] == '&':
+            t = ir.strip(x['e'])
+            if t['k'] == 'var' and t['id'] == var_id:
+                out.append(('other', None))
+    return out
+
+
+def _is_write_node(x, var_id):
+    if x['k'] == 'un' and x['op'] in ('++', '--', '&'):
+        t = ir.strip(x['e'])
+        return t['k'] == 'var' and t['id'] == var_id
+    if x['k'] == 'asg':
+        t = ir.strip(x['l'])
+        return t['k'] == 'var' and t['id'] == var_id
+    return False
+
+
+def _iteration_paths(s, var_id, limit=512):
+    """structured paths through a loop body: [(list of writes to the variable, outcome)], outcome in fall / cont / break / ret.
+    Nested loops that write the variable make the analysis give up (('other', None) is recorded)."""
+    if s is None:
+        return [([], 'fall')]
+    k = s.get('s')
+    if k == 'block':
+        paths = [([], 'fall')]
+        for c in s['b']:
+            nxt = []
+            sub = None
+            for w, o in paths:
+                if o != 'fall':
+                    nxt.append((w, o))
+                    continue
+                if sub is None:
+                    sub = _iteration_paths(c, var_id, limit)
+                for w2, o2 in sub:
+                    nxt.append((w + w2, o2))
+            paths = nxt
+            if len(paths) > limit:
+                raise AnalysisBroken('too many paths through a loop body')
+        return paths
+    if k == 'if':
+        cw = _writes_to(s['c'], var_id) if ir.is_expr(s.get('c')) else []
+        out = []
+        for branch in (s.get('t'), s.get('e')):
+            for w, o in _iteration_paths(branch, var_id, limit):
+                out.append((cw + w, o))
+        return out
+    if k == 'break':
+        return [([], 'break')]
+    if k == 'cont':
+        return [([], 'cont')]
+    if k == 'ret':
+        return [(_writes_to(s['e'], var_id) if ir.is_expr(s.get('e')) else [], 'ret')]
+    if k in ('for', 'while', 'do', 'rfor', 'switch'):
+        ws = []
+        for t in ir.walk_stmts(s):
+            for e in ir.stmt_exprs(t):
+                ws += _writes_to(e, var_id)
+        return [([('other', None)] if ws else [], 'fall')]
+    ws = []
+    for e in ir.stmt_exprs(s):
+        ws += _writes_to(e, var_id)
+    return [(ws, 'fall')]
+
+
+def bounded(fn, st):
+    """Describe loop `st` of function fn as a bounded counting loop, in whatever spelling: returns a dict with
+       var, start, bound_op, bound_val, per_iteration (the amount every iterating path adds to the counter, or None when the paths
+       disagree / write it otherwise), extra_conds, problems -- or None when no counter can be identified."""
+    if st.get('s') not in ('for', 'while'):
+        return None
+    cond = st.get('c')
+    if cond is None:
+        return None
+    for cj in conjuncts(cond):
+        if not (cj['k'] == 'bin' and cj['op'] in ('<', '<=', '!=', '>', '>=')):
+            continue
+        l, r = ir.strip(cj['l']), ir.strip(cj['r'])
+        mirror = {'<': '>', '>': '<', '<=': '>=', '>=': '<=', '!=': '!='}
+        for v, other, op in ((l, r, cj['op']), (r, l, mirror[cj['op']])):
+            if v['k'] != 'var' or v.get('vk') not in ('local', None) or ir.const_val(other) is None:
+                continue
+            var_id = v['id']
+            # declaration: in the for-init, or a local of the function declared before the loop with a constant initialiser
+            decl = None
+            if st.get('s') == 'for' and st.get('init') and st['init'].get('s') == 'decl':
+                for d in st['init']['vars']:
+                    if d.get('id') == var_id:
+                        decl = d
+            outside_writes = []
+            if decl is None:
+                for t in ir.walk_stmts(fn.body):
+                    if t.get('s') == 'decl':
+                        for d in t['vars']:
+                            if d.get('id') == var_id:
+                                decl = d
+                # every write to the counter must be inside this loop
+                inside = set(id(x) for t in ir.walk_stmts(st) for e in ir.stmt_exprs(t) for x in ir.walk(e))
+                for t in ir.walk_stmts(fn.body):
+                    for e in ir.stmt_exprs(t):
+                        for x in ir.walk(e):
+                            if id(x) not in inside and _is_write_node(x, var_id):
+                                outside_writes.append(ir.pp(x))
+            if decl is None or decl.get('ref'):
+                continue
+            inc_w = _writes_to(st['inc'], var_id) if st.get('s') == 'for' and ir.is_expr(st.get('inc')) else []
+            amounts = set()
+            problems = []
+            for w, o in _iteration_paths(st.get('body'), var_id):
+                if o in ('break', 'ret'):
+                    continue     # leaves the loop
+                tot = list(w) + list(inc_w)      # `continue` in a for loop still runs the increment
+                if any(kind == 'other' for kind, a in tot):
+                    problems.append('the counter is written other than by a constant increment')
+                    amounts.add(None)
+                else:
+                    amounts.add(sum(a for kind, a in tot))
+            if outside_writes:
+                problems.append('the counter is written outside the loop: %s' % outside_writes[:2])
+            cw = [w for c2 in conjuncts(cond) for w in _writes_to(c2, var_id)]
+            if cw:
+                problems.append('the loop condition writes the counter')
+            return {
+                'var': decl, 'start': ir.const_val(decl.get('init')) if decl.get('init') is not None else None,
+                'bound_op': op, 'bound_val': ir.const_val(other),
+                'per_iteration': (next(iter(amounts)) if len(amounts) == 1 else None),
+                'extra_conds': [c2 for c2 in conjuncts(cond) if c2 is not cj], 'problems': problems,
+            }
+    return None
